@@ -15,7 +15,19 @@ pub struct Episode {
 pub fn generate(prop: &str, tier: &str, seed: u64) -> Vec<Episode> {
     let thorough = tier == "thorough";
     match prop {
+        "C01" => lutops::gen_c01(thorough, seed),
+        "C02" => lutops::gen_c02(thorough, seed),
         "C03" => lutops::gen_c03(thorough, seed),
+        "C04" => lutops::gen_canon(thorough, seed, false),
+        "C05" => lutops::gen_canon(thorough, seed, true),
+        "C06" => lutops::gen_c06(thorough, seed),
+        "C07" => lutops::gen_c07(thorough, seed),
+        "C08" => lutops::gen_c08(thorough, seed),
+        "C09" => lutops::gen_c09(thorough, seed),
+        "C10a" => lutops::gen_c10a(thorough, seed),
+        "C10b" => lutops::gen_c10b(thorough, seed),
+        "C11" => lutops::gen_c11(thorough, seed),
+        "C17" => lutops::gen_c17(thorough, seed),
         _ => panic!("HARNESS: no generator for {}", prop),
     }
 }
